@@ -1849,13 +1849,24 @@ func patchCode(context *funcContext) { // {{{
 		curop := opGetOpCode(inst)
 		switch curop {
 		case OP_CLOSURE:
+			if reg := opGetArgA(inst); reg > maxreg {
+				maxreg = reg
+			}
 			pc += int(context.Proto.FunctionPrototypes[opGetArgBx(inst)].NumUpvalues)
 			moven = 0
 			continue
 		case OP_SETGLOBAL, OP_SETUPVAL, OP_EQ, OP_LT, OP_LE, OP_TEST,
-			OP_TAILCALL, OP_RETURN, OP_FORPREP, OP_FORLOOP, OP_TFORLOOP,
+			OP_TAILCALL, OP_RETURN, OP_FORPREP,
 			OP_CLOSE:
 			/* nothing to do */
+		case OP_FORLOOP: // writes the loop variable R(A+3)
+			if reg := opGetArgA(inst) + 3; reg > maxreg {
+				maxreg = reg
+			}
+		case OP_TFORLOOP: // writes the loop variables R(A+3) ... R(A+2+C)
+			if reg := opGetArgA(inst) + 2 + opGetArgC(inst); reg > maxreg {
+				maxreg = reg
+			}
 		case OP_SETLIST:
 			if opGetArgC(inst) == 0 { // the next word is the batch number, not an instruction
 				pc++
